@@ -150,6 +150,11 @@ SUMMARY = {
     "C02-H": ("raw JSON raw_parse: enclosure_counter <= 0 → == 0 (same edit as C06-D)", "one closing bracket too many between documents"),
     "C07-G": ("_buffered_readuntil: 'not found / limit exceeded' check moved above the 'separator found' return", "one read filling the limit-sized buffer with small complete frames"),
     "C07-H": ("GeneratorStreamReader.read_until: chunks lacking the separator's last byte appended without rescanning (skips the limit check)", "a never-terminated frame arriving in ≥ 2 reads with no newline in the later ones"),
+    "C01-G": ("AutoSeparatedPacketSerializer creates its GeneratorStreamReader once and reuses it (state of an unfinished packet belongs to the protocol object)", "copy path, one protocol object serving two connections, the first one closed mid-packet"),
+    "C06-G": ("raw JSON plain-value branch: leading whitespace dropped by slicing the memoryview (+= then raises TypeError)", "use_lines=False, buffer starting with whitespace before a plain value cut by a read boundary"),
+    "C06-H": ("FileBasedPacketSerializer: the 'packet longer than limit' raise replaced by the helper that reports the whole buffer as consumed", "an oversized packet completely received in the same read(s) as following packets"),
+    "C09-G": ("_retry_ssl_method want-read branch: flush moved inside the receive lock", "one task parked in recv() while another calls aclose(): the close_notify waits for the receive lock"),
+    "C09-H": ("aclose(): try unwrap / except OSError: flush collapsed into one suppress(OSError) block (flush only when unwrap() succeeded)", "the D24 history: two records in one segment, one read, then close"),
     "C11-G": ("_retry: next wait length computed once, refreshed only after an idle wake-up", "spurious readiness followed by a stall (TLS record drip-fed, slow reader on the send side)"),
     "C13-G": ("CancelScope.__uncancel_task: 'not our message → not ours' before the take-back loop (recognition by message only)", "the scope's cancellation comes back as a fresh CancelledError instance (Condition.wait in 3.12, user code re-raising a new one)"),
     "C13-H": ("CancelScope.__deliver_cancellation stops re-scheduling once task.cancel() was issued (edge-triggered)", "the CancelledError is consumed inside the body (except BaseException / ExceptionGroup replaces it) and the body carries on"),
